@@ -5,7 +5,7 @@ import NA.Proofs.IosConv
 -/
 namespace NA.F2
 open NA.Acl (Range Cell)
-open NA.F1 (lookupD)
+open NA.F1 (lookupD isTagged)
 
 /-- `nolog` and `act` are functions of `text` (they are computed from it). -/
 def textFunB (ls : List ALine) : Bool :=
@@ -79,6 +79,79 @@ def wfWhy (a0 b : Config) (sc : Scripts) : String :=
   else if !((b.acls.map (·.1)).all fun bN => appendOKFrom [] (b.lines bN)) then "target-acl-not-appendable"
   else if !(decide ((a0.routes.map (·.text)).Nodup) && decide ((b.routes.map (·.text)).Nodup)) then "duplicate-route"
   else if !(a0.routes.all fun r => b.routes.all fun r' => r.text != r'.text || r.vrf == r'.vrf) then "route-vrf"
+  else "ok"
+
+
+/-! ## "Already settled": the decidable class of `ios_F2_quiet` -/
+
+/-- The pairs of access lists the engine compares: bound in the same direction to interfaces of the
+same name (`a'`: the device after `alignVRFs`). -/
+def cmpPairs (a' b : Config) : List (Name × Name) :=
+  a'.intfs.flatMap fun ai => b.intfs.flatMap fun bi =>
+    if ai.name == bi.name then
+      ai.binds.flatMap fun ba => bi.binds.filterMap fun bb => if ba.dir == bb.dir then some (ba.acl, bb.acl) else none
+    else []
+
+/-- The line planner has nothing to do for this pair: both lists empty, or a valid script that keeps a
+line and whose plan is empty. -/
+def quietLines (al bl : List ALine) (rs : List Range) : Bool :=
+  (al.isEmpty && bl.isEmpty) ||
+  (!al.isEmpty &&
+    match pairCells al bl rs with
+    | some M => (M.any fun c => c.old && c.new) && (NA.Acl.planIOS M).isEmpty
+    | none => false)
+
+/-- Access lists bound by device interfaces that have no partner: interfaces of VRFs the target does
+not mention (removed by `alignVRFs`) and interfaces the target does not name. -/
+def unpairedAcls (a b : Config) : List Name :=
+  (a.intfs.filter fun i => !((alignVRFs a b {}).2.intfs.contains i) || !(b.intfs.any fun bi => bi.name == i.name)).flatMap
+    fun i => i.binds.map (·.acl)
+
+/-- The device is already as the target says, statically: `checkIOSInterfaces` succeeds; names
+pairwise different; bindings refer to defined ACLs, at most one per direction; every pair of
+interfaces of the same name binds the same directions; device and target ACLs are paired one-to-one
+by these bindings; no compared device ACL is also bound by an interface without partner; the line
+planner is quiet on every compared pair; every target route is on the device and every further device
+route lies in a VRF for which the target has no routes; every generated (`-DRC-`) ACL of the device is
+compared or bound by an interface without partner. -/
+def settledB (a b : Config) (sc : Scripts) : Bool :=
+  let a' := (alignVRFs a b {}).2
+  let cp := cmpPairs a' b
+  let prot := unpairedAcls a b
+  (engine a b sc).ok &&
+  decide ((a.intfs.map (·.name)).Nodup) && decide ((b.intfs.map (·.name)).Nodup) &&
+  (a.intfs.all fun i => decide ((i.binds.map (·.dir)).Nodup) && i.binds.all fun bd => isDir bd.dir && a.hasAcl bd.acl) &&
+  (b.intfs.all fun i => decide ((i.binds.map (·.dir)).Nodup) && i.binds.all fun bd => isDir bd.dir && b.hasAcl bd.acl) &&
+  (a'.intfs.all fun ai => b.intfs.all fun bi => ai.name != bi.name ||
+    ((ai.binds.all fun ba => bi.binds.any fun bb => bb.dir == ba.dir) &&
+     (bi.binds.all fun bb => ai.binds.any fun ba => ba.dir == bb.dir))) &&
+  (cp.all fun p => cp.all fun q => (p.1 == q.1) == (p.2 == q.2)) &&
+  (cp.all fun p => !prot.contains p.1) &&
+  (cp.all fun p => quietLines (a.lines p.1) (b.lines p.2) (lookupD sc.acl p)) &&
+  decide ((a.routes.map (·.text)).Nodup) &&
+  (b.routes.all fun rb => a'.routes.any fun ra => ra.text == rb.text) &&
+  (a'.routes.all fun ra => (b.routes.any fun rb => rb.text == ra.text) || !(b.routes.any fun rb => rb.vrf == ra.vrf)) &&
+  ((a.acls.map (·.1)).all fun n => !isTagged n || prot.contains n || cp.any fun p => p.1 == n)
+
+/-- Name of the first conjunct of `settledB` that fails (statistics of the driver only). -/
+def settledWhy (a b : Config) (sc : Scripts) : String :=
+  let a' := (alignVRFs a b {}).2
+  let cp := cmpPairs a' b
+  let prot := unpairedAcls a b
+  if !(engine a b sc).ok then "refused"
+  else if !(decide ((a.intfs.map (·.name)).Nodup) && decide ((b.intfs.map (·.name)).Nodup)) then "names"
+  else if !(a.intfs.all fun i => decide ((i.binds.map (·.dir)).Nodup) && i.binds.all fun bd => isDir bd.dir && a.hasAcl bd.acl) then "device-binding-of-undefined-acl"
+  else if !(b.intfs.all fun i => decide ((i.binds.map (·.dir)).Nodup) && i.binds.all fun bd => isDir bd.dir && b.hasAcl bd.acl) then "target-binding-of-undefined-acl"
+  else if !(a'.intfs.all fun ai => b.intfs.all fun bi => ai.name != bi.name ||
+    ((ai.binds.all fun ba => bi.binds.any fun bb => bb.dir == ba.dir) &&
+     (bi.binds.all fun bb => ai.binds.any fun ba => ba.dir == bb.dir))) then "bound-directions-differ"
+  else if !(cp.all fun p => cp.all fun q => (p.1 == q.1) == (p.2 == q.2)) then "pairing-not-one-to-one"
+  else if !(cp.all fun p => !prot.contains p.1) then "compared-acl-bound-without-partner"
+  else if !(cp.all fun p => quietLines (a.lines p.1) (b.lines p.2) (lookupD sc.acl p)) then "line-planner-not-quiet"
+  else if !(decide ((a.routes.map (·.text)).Nodup)) then "duplicate-route"
+  else if !((b.routes.all fun rb => a'.routes.any fun ra => ra.text == rb.text) &&
+    (a'.routes.all fun ra => (b.routes.any fun rb => rb.text == ra.text) || !(b.routes.any fun rb => rb.vrf == ra.vrf))) then "routes-differ"
+  else if !((a.acls.map (·.1)).all fun n => !isTagged n || prot.contains n || cp.any fun p => p.1 == n) then "generated-acl-not-compared"
   else "ok"
 
 end NA.F2
